@@ -119,7 +119,7 @@ fn main() {
         },
     );
     // a few longer vectors
-    let longs = [255usize, 256, 257, 1000, 1023, 4099];
+    let longs = [255usize, 256, 257, 1000, 1023, 2048, 2049, 3001, 4099, 10007, 16385];
     ctx.lattice(
         &format!("worker counts 1..{} x longer vectors {:?}", kmax, longs),
         kmax as u64 * longs.len() as u64,
